@@ -308,6 +308,7 @@ Definition zero_under_overflow (ts : list etree) : bool :=
 Definition has_multiplied_field (ts : list etree) : bool :=
   existsb (fun o => prod (snd o) >? 1) (flat_map (occurrences []) ts).
 
+(** an oracle failure, as (key, details) *)
 Definition oracle (ts : list etree) (max : Z) (o : observed) : option sexp :=
   let ref := RefCost ts in
   if negb (ref =? sum (map horner ts)) then Some (v_bad "spec-internal: RefCost <> horner")
@@ -322,7 +323,6 @@ Definition oracle (ts : list etree) (max : Z) (o : observed) : option sexp :=
         | Set_ x =>
             if x =? want then None
             else if x <? want then Some "undercount"
-            else if zero_under_overflow ts then Some "free-field-under-overflowed-multiplier"
             else Some "overcount"
         end in
       match bad_actual a0, bad_actual a1 with
@@ -334,7 +334,6 @@ Definition oracle (ts : list etree) (max : Z) (o : observed) : option sexp :=
             let acc := e1 =? 0 in
             if Bool.eqb acc (accept_ref ref max) then None
             else if acc then Some (v_oracle_fail "accepted-over-limit" [tag "ref" [SZ ref]])
-            else if zero_under_overflow ts then Some (v_oracle_fail "free-field-under-overflowed-multiplier" [tag "ref" [SZ ref]])
             else Some (v_oracle_fail "rejected-within-limit" [tag "ref" [SZ ref]])
           else None
       end
@@ -442,8 +441,23 @@ Definition check (c : sexp) : sexp :=
               let m := validate_cost ctxT true fuel dc ctx0 ops frs opname vars_err max in
               let m0 := validate_cost ctxT true fuel dc ctx0 ops frs opname vars_err (-1) in
               let spec := spec_tree dc ops frs opname vars_err in
+              (* classification of defect 18 (repaired): the observation is exactly what the code before
+                 the repair computes, on a tree with a free field beneath an overflowed multiplier *)
+              let before := validate_cost ctxT false fuel dc ctx0 ops frs opname vars_err max in
+              let before0 := validate_cost ctxT false fuel dc ctx0 ops frs opname vars_err (-1) in
+              let is_defect18 :=
+                match spec, compare before before0 o with
+                | Some ts, None => zero_under_overflow ts
+                | _, _ => false
+                end in
               match (match spec with Some ts => oracle ts max o | None => None end) with
-              | Some v => v
+              | Some v =>
+                  match v with
+                  | SL (SSym t :: _ :: details) =>
+                      if String.eqb t "oracle-fail" && is_defect18
+                      then v_oracle_fail "free-field-under-overflowed-multiplier" details else v
+                  | _ => v
+                  end
               | None =>
                   if negb (forallb conn_oracle conns) then v_oracle_fail "more-edges-than-multiplier" []
                   else
